@@ -291,6 +291,21 @@ func genC05(r *Rng, tier string) []Case {
 		per = 300
 	}
 	var cs []Case
+	// every header field, with pairwise distinct bytes and boundary values
+	rh := r.Fork("c05.hdr")
+	nh := 200
+	if tier == "thorough" {
+		nh = 5000
+	}
+	for i := 0; i < nh; i++ {
+		d := i%2 == 0
+		u := func(bits int) string { return fmt.Sprint(randIntBits(rh, bits, d)) }
+		args := []string{hx([]byte{0xFF, 'S', 'M', 'B'}), u(8), u(32), u(8), u(16), u(16), hx(rh.Bytes(8)), u(16), u(16), u(16), u(16), u(16)}
+		if i%10 == 9 {
+			args[0] = hx(rh.Bytes(4))
+		}
+		cs = append(cs, Case{Op: "smb.hdr", MArgs: args, SArgs: args, NoM: true, Tag: "hdr"})
+	}
 	for _, name := range genOrder {
 		g := genCmds[name]
 		rr := r.Fork("c05." + name)
